@@ -18,6 +18,7 @@ RULE = ("segments of all four types from the class mix (generic, collinear monot
 ASSUMPTIONS = ["tolerance 1e-6 relative, 5e-3 where the speed vanishes inside the closed interval; the harness reads 'vanishes' numerically: min |B'| <= 1e-4 max |B'| on the interval (a near-cusp defeats numerical integration exactly like a cusp: scipy quad and the chord recursion are both off by ~1e-5 there)", "absolute floor 1e-10 (the library requests absolute error 1e-12 from quad by default)",
                "arc lengths are bracketed for the curve given by the library's stored centre parameters (C04 owns those)",
                "no-scipy configuration is run on fewer cases and mostly at scales <= 1e2 (the fallback needs seconds per call at 1e6)"]
+RULE += ' Also: Path cases continue with an edit of the queried path (end/start assignment, replace, append, delete, insert) and compare the path, its reversed copy and its segments with fresh ones.'   # added after the seeded-change rounds (DESIGN.md section 10)
 CONFIGS = ['scipy', 'noscipy']
 BUDGET = {'quick': {'scipy': 6000, 'noscipy': 480}, 'thorough': {'scipy': 150000, 'noscipy': 6000}}
 REQUIRED = ['kind:Q', 'kind:C', 'kind:A', 'kind:L', 'class:collinear', 'class:foldback', 'speed_zero_in_interval', 'path', 'path_edited_after_queries']
